@@ -153,7 +153,9 @@ def op_text(op):
         return " ".join(["clone"] + [hx(d) for d in (op[1] if len(op) > 1 else [])])
     if k == "moveproj":
         return "moveproj %s" % op[1]
-    if k in ("wipecache", "oldschema"):
+    if k == "oldschema":
+        return k if len(op) == 1 else "oldschema " + op[1]
+    if k == "wipecache":
         return k
     raise ValueError(op)
 
@@ -636,9 +638,11 @@ class Project:
         return 0, b"", lines
 
 
-def convert_old_schema(proj, b3):
-    """Rewrite every manifest of the cache in the pre-tag schema, bottom-up; re-key objects and stage
-    files. Returns [(old digest, new digest)]."""
+def convert_old_schema(proj, b3, sel=None):
+    """Rewrite the manifests of the cache in the pre-tag schema, bottom-up; re-key objects and stage
+    files. `sel`: only the manifests whose (original) digest starts with one of these hex digits are
+    converted, the others keep their schema and are only re-keyed when a child was.
+    Returns [(old digest, new digest)]."""
     objs = {}
     for hh in os.listdir(proj.cache):
         p = os.path.join(proj.cache, hh)
@@ -660,6 +664,26 @@ def convert_old_schema(proj, b3):
         for d, m in list(todo.items()):
             kids = m["contents"]
             if any(c.get("is-dir") and c["checksum"] in todo for c in kids.values()):
+                continue
+            if sel is not None and d[0] not in sel:
+                raw = open(objs[d], "rb").read()
+                data = raw
+                for c in kids.values():
+                    if c["checksum"] in ren:
+                        data = data.replace(c["checksum"].encode(), ren[c["checksum"]].encode())
+                del todo[d]
+                progressed = True
+                if data == raw:
+                    continue
+                nd = b3.data(data, proj.base)
+                os.chmod(objs[d], 0o644)
+                os.unlink(objs[d])
+                np = proj.obj_path(nd)
+                os.makedirs(os.path.dirname(np), exist_ok=True)
+                with open(np, "wb") as f:
+                    f.write(data)
+                os.chmod(np, 0o444)
+                ren[d] = nd
                 continue
             fields = []
             for k in sorted(kids, key=lambda s: s.encode("utf-8", "surrogateescape")):
@@ -823,7 +847,7 @@ def apply_op(proj, op, mstep, b3):
                         os.unlink(full)
             prune(rootb)
         elif k == "oldschema":
-            r["x"] = [list(p) for p in convert_old_schema(proj, b3)]
+            r["x"] = [list(p) for p in convert_old_schema(proj, b3, op[1] if len(op) > 1 else None)]
         elif k == "moveproj":
             proj.move()
         elif k == "setcmd":
